@@ -12,6 +12,7 @@ pub mod c11;
 pub mod c12;
 pub mod c13;
 pub mod c14;
+pub mod c15;
 pub mod c16;
 pub mod c17;
 pub mod l2scen;
@@ -34,6 +35,7 @@ pub fn registry() -> Vec<Box<dyn Prop>> {
         Box::new(c12::C12),
         Box::new(c13::C13),
         Box::new(c14::C14),
+        Box::new(c15::C15),
         Box::new(c16::C16),
         Box::new(c17::C17),
     ]
